@@ -40,6 +40,15 @@ def traced_files(with_parser=False):
     return out
 
 
+class StepBudgetExceeded(BaseException):
+    """The run used far more scheduling steps than any healthy run does: a statement that does not come back
+    (e.g. a parser state corrupted by another thread).  Raised inside the running thread; the client records it
+    as the outcome of its statement, which then differs from the serial outcome."""
+
+
+MAX_STEPS = 400000
+
+
 class ThreadSim:
     inert = False
 
@@ -69,6 +78,7 @@ class ThreadSim:
         self.pairs = collections.Counter()
         self.scans = 0
         self.hold_until = -1
+        self.budget_hit = [False] * nthreads
         # PCT state
         st = self.strategy
         if st['kind'] == 'pct' and rng is not None:
@@ -138,6 +148,9 @@ class ThreadSim:
             return
         step = self.steps
         self.steps += 1
+        if step > MAX_STEPS and not self.budget_hit[me]:
+            self.budget_hit[me] = True
+            raise StepBudgetExceeded(f'more than {MAX_STEPS} scheduling steps')
         self.site[me] = site
         to = self._decide(me, step)
         if to is None:
